@@ -868,6 +868,127 @@ theorem C03_file_second_restore_noop (P : Params) (st : S) (C : Comp)
   · exact hmem p (List.mem_reverse.mp hp)
   · exact hmem p hp
 
+/-! ## what the fetch and the gate do NOT depend on
+
+Which upstream an input takes is a function of the input's connection list and of which upstream channels
+hold data — not of what the upstream NODES are doing (running on an executor, failed, cached, jobs
+out).  Whether a node is ready is a function of the values its inputs hold NOW — not of what was
+validated when they were assigned. -/
+
+/-- the choice of the fetch loop, and the value the input ends with, are the same whatever the run
+state of every node is -/
+theorem C03_priority_ignores_run_state (s : S) (i : Nat) (r f : Nat → Bool) (l : List (Nat × List Val))
+    (c : Nat → Option (List Val)) (p : Nat → List (List Val)) :
+    let t : S := { s with running := r, failed := f, calls := l, cached := c, pending := p }
+    firstData t (t.conns i) = firstData s (s.conns i) ∧ fetchVal t i = fetchVal s i := by
+  intro t
+  have h : firstData t (s.conns i) = firstData s (s.conns i) := firstData_congr s t _ (fun _ _ => rfl)
+  exact ⟨h, by unfold fetchVal; rw [show t.conns i = s.conns i from rfl, h]⟩
+
+/-- the whole fetch of an input (without receiver) commutes with any change of the run state of OTHER
+nodes — in particular of the nodes that own its upstream outputs: same outcome, same stored value -/
+theorem C03_fetch_ignores_upstream_run_state (P : Params) (fuel : Nat) (s : S) (i : Nat) (r f : Nat → Bool)
+    (hr : s.recv i = none) (hown : r (s.owner i) = s.running (s.owner i)) :
+    fetch1 P (fuel + 1) { s with running := r, failed := f } i =
+      ({ (fetch1 P (fuel + 1) s i).1 with running := r, failed := f }, (fetch1 P (fuel + 1) s i).2) := by
+  have hfd : firstData { s with running := r, failed := f } (s.conns i) = firstData s (s.conns i) :=
+    firstData_congr s _ _ (fun _ _ => rfl)
+  unfold fetch1
+  simp only
+  rw [hfd]
+  cases firstData s (s.conns i) with
+  | none => rfl
+  | some v =>
+    simp only
+    rw [setVal_norecv P fuel s i v hr, setVal_norecv P fuel { s with running := r, failed := f } i v hr]
+    simp only [hown]
+    split
+    · rfl
+    · split <;> rfl
+
+/-- a fetch that passes over upstreams whose owner is mid-run (seeded change C03-7) -/
+def firstDataSkipRunning (s : S) : List Nat → Option Val
+  | [] => none
+  | o :: os =>
+    if s.val o ≠ .nd ∧ s.running (s.owner o) = false then some (s.val o) else firstDataSkipRunning s os
+
+/-- the state of a node holding data at an upstream is `running` (its job is out), and the downstream
+input loses its most recent upstream: such a fetch contradicts `C03_most_recent` -/
+theorem C03_skip_running_upstream_witness :
+    let s : S := (Data.step exP 8 rtS (.flag 2 true false)).1
+    s.conns 0 = [11, 10] ∧ s.val 11 = .d 2 ∧ s.owner 11 = 2 ∧ s.running 2 = true ∧
+    firstData s (s.conns 0) = some (.d 2) ∧ firstDataSkipRunning s (s.conns 0) = some (.d 1) ∧
+    (runAny exP 8 8 s 0 []).1.calls = [(0, [.d 2, .d 100, .d 5])] := by
+  decide
+
+/-- readiness reads the CURRENT values: two states that agree on the node's flags, its input panel and what
+its inputs hold and how they are hinted give the same verdict — there is no memory of earlier validations -/
+theorem C03_ready_current_value (P : Params) (s t : S) (n : Nat) (h1 : t.running n = s.running n)
+    (h2 : t.failed n = s.failed n) (h3 : t.ins n = s.ins n)
+    (h4 : ∀ i ∈ s.ins n, t.val i = s.val i ∧ t.hinted i = s.hinted i ∧ t.strict i = s.strict i) :
+    nodeReady P t n = nodeReady P s n := by
+  unfold nodeReady
+  rw [h1, h2, h3]
+  congr 1
+  apply List.all_congr rfl
+  intro i hi
+  obtain ⟨a, b, c⟩ := h4 i hi
+  unfold chanReady
+  rw [a, b, c]
+
+theorem fetchAll_noconn (P : Params) (fuel : Nat) (s : S) (is : List Nat) (h : ∀ i ∈ is, s.conns i = []) :
+    fetchAll P fuel s is = (s, none) := by
+  induction is with
+  | nil => rfl
+  | cons i is ih =>
+    unfold fetchAll fetch1
+    rw [h i (by simp)]
+    simp only [firstData]
+    exact ih (fun j hj => h j (List.mem_cons_of_mem _ hj))
+
+/-- **the gate re-validates**: a mutable value was delivered while valid and is then changed in place so
+that the strict hint of an input of `n` rejects it; the next run — without any new assignment — is refused
+with a ReadinessError, nothing is called, nothing else changes -/
+theorem C03_mutation_shuts_gate (P : Params) (fuel d : Nat) (s : S) (n i k k' : Nat)
+    (hi : i ∈ s.ins n) (hv : s.val i = .d k) (hs : s.strict i = true) (hh : s.hinted i = true)
+    (ha : P.admits i (.d k') = false) (hc : ∀ j ∈ s.ins n, s.conns j = []) :
+    runAny P fuel (d + 1) (mutateS s k k') n [] = (mutateS s k k', .err .readiness) := by
+  have hnr : nodeReady P (mutateS s k k') n = false := by
+    unfold nodeReady
+    have : chanReady P (mutateS s k k') i = false := by
+      unfold chanReady
+      have hval : (mutateS s k k').val i = .d k' := by simp [mutateS, substVal, hv]
+      rw [hval]
+      show (decide (Val.d k' ≠ Val.nd) && (!(s.hinted i && s.strict i) || P.admits i (.d k'))) = false
+      simp [hs, hh, ha]
+    have hall : ((mutateS s k k').ins n).all (chanReady P (mutateS s k k')) = false := by
+      rw [List.all_eq_false]
+      exact ⟨i, hi, by rw [this]; simp⟩
+    rw [hall]; simp
+  have hadm : admission P fuel (mutateS s k k') n [] = (mutateS s k k', .refused .readiness) := by
+    unfold admission
+    simp only [setInputs]
+    rw [fetchAll_noconn P fuel (mutateS s k k') _ (fun j hj => hc j hj)]
+    simp [hnr]
+  unfold runAny
+  rw [hadm]
+
+/-- readiness that trusts a verdict remembered from the assignment (seeded change C03-8): `memo c` = the
+object in `c` passed `c`'s hint when it was assigned -/
+def chanReadyMemo (memo : Nat → Bool) (P : Params) (s : S) (c : Nat) : Bool :=
+  s.val c ≠ .nd && (!(s.hinted c && s.strict c) || memo c || P.admits c (s.val c))
+
+/-- value 7 is delivered to the int-like input 0 (valid, remembered), the object is then changed in
+place to 500 (rejected): the real gate shuts — `C03_mutation_shuts_gate` applies —, the remembering one
+stays open -/
+theorem C03_memoised_ready_witness :
+    let s0 : S := Data.run exP 8 exInit [.set 0 (.d 7), .set 1 (.d 100), .set 2 (.d 5)]
+    let s := mutateS s0 7 500
+    chanReady exP s0 0 = true ∧ s.val 0 = .d 500 ∧ exP.admits 0 (.d 500) = false ∧ chanReady exP s 0 = false ∧
+    chanReadyMemo (fun c => c = 0) exP s 0 = true ∧ (runAny exP 8 8 s 0 []).2 = .err .readiness ∧
+    (runAny exP 8 8 s 0 []).1.calls = [] ∧ (runAny exP 8 8 s0 0 []).2 = .invoked none := by
+  decide
+
 /-! ## concrete worlds (non-vacuity and the witness for the excluded operation) -/
 
 def exKind (c : Nat) : Kind := if c < 3 ∨ c = 20 ∨ c = 21 then .dataIn else .dataOut
@@ -1130,3 +1251,9 @@ end PwVerif.C03
 #print axioms PwVerif.C03.C03_complete_calls
 #print axioms PwVerif.C03.C03_run_function_node
 #print axioms PwVerif.C03.C03_file_second_restore_noop
+#print axioms PwVerif.C03.C03_priority_ignores_run_state
+#print axioms PwVerif.C03.C03_fetch_ignores_upstream_run_state
+#print axioms PwVerif.C03.C03_skip_running_upstream_witness
+#print axioms PwVerif.C03.C03_ready_current_value
+#print axioms PwVerif.C03.C03_mutation_shuts_gate
+#print axioms PwVerif.C03.C03_memoised_ready_witness
